@@ -84,5 +84,10 @@ REGISTRY = {
                     "258 hostile strings as defaults and Literal values, 258 hostile docstrings x 4 styles) are run and the token classes of every stub file are fed through the recogniser in TLC (C02_Trace); "
                     "the 44 upstream snapshot stubs calibrate it.",
             "ref": "DESIGN.md section 7 C02", "note": "Trusted: TLC; the hand-written lexer harness/sds.py; 'valid' means accepted by SdsGrammar.tla (no reference Safe-DS parser is available offline); raw newlines and '{{' in strings are accepted.", "technique": TECH},
+    "C01": {"text": "spec/Pipeline.tla models a run as a program-counter machine (discover, build, aliases, walk, json, generate, write; rejected only for empty discovery) over a universe of 121 "
+                    "declaration forms (parameter kinds, 29 return-expression kinds, 24 initializer kinds, 31 class/function forms, re-export forms, foreign classes, module-level code, docstrings incl. malformed "
+                    "ones) x 64 option sets, with totality of every dispatch as invariants and termination as a liveness property; every form is run alone, all forms together under all 64 option sets, failing "
+                    "packs are bisected, empty inputs must be rejected with the documented error; C01_Trace judges every run's outcome.",
+            "ref": "DESIGN.md section 7 C01", "note": "Trusted: TLC; the child-process recorder (exception type and innermost safeds_stubgen frame); mypy 1.20.2. 'All packages' is explored over the listed declaration forms, not all of Python.", "technique": TECH},
 }
 NOT_APPLICABLE = {}
